@@ -104,6 +104,21 @@ CLAIMED = {
         'executed on the real objects with the recorded heartbeat / (lock, owner) compared after each step.',
         'Virtual clock substituted for `time`; in-process transport; Worker objects shared between pools.',
         '5/C20'),
+    'C06': (
+        'TLA+ spec Sched.tla (control loop of WorkerPool.iterate + client coroutine + fault actions) model-checked by TLC; fault assignments executed as fault plans on the real WorkerPool / PrefetchedCourierServer / orchestrate over an in-process transport; the rejected interleaving forced on the real code',
+        'TLC explores every interleaving of loop polls, coroutine steps and faults (deadline, death, application error) within the budget for exactly-once '
+        'state forwarding, at-least-once outputs, error surfacing and termination; fault plans (outcome of the i-th call of each worker) run on the real code '
+        'and the outcome is judged against the in-process run (aggregate equal, every output present, no state twice, errors surface, workers released).',
+        'In-process transport and x200 scaled clock; real threads, so schedules other than the forced one are sampled.',
+        '5/C06'),
+    'C16': (
+        'TLA+ spec Sched.tla with an empty fault budget model-checked by TLC (exactly-once outputs and states, termination, strict-count merge law); the real sharded and interleaved runners over the in-process transport compared with the in-process run',
+        'TLC checks that without faults every interleaving of loop polls and coroutine steps delivers each output batch and each shard state exactly once and terminates. '
+        'sharded_pipelines_as_iterator (1-3 workers x 1-4 shards x batch sizes), run_pipeline_interleaved with in-process stages and with a remote stage fed through a '
+        'RemoteIteratorQueue on a master server are run on the real code and compared with ChainedRunner in process (multiset of outputs, aggregate, exactly one '
+        'AggregateResult, workers released); merge_states(strict_states_cnt) is checked for all (given, expected) in 0..4 x 0..4.',
+        'In-process transport; real threads and event loops, so schedules are sampled, not enumerated.',
+        '5/C16'),
 }
 
 PENDING = {}
